@@ -499,6 +499,20 @@ theorem prepare_spec (a : NoteArray) (g : Args) (o : Opts) (notes : List Note) (
               · rename_i on du ht
                 exact ⟨on, du, ht, (Option.some.inj hrn).symm⟩
 
+/-- score and performance units present (quarter listed first), a drum row on channel 9 -/
+def exArray : NoteArray :=
+  { units := ["quarter", "beat", "sec"], hasVel := true, hasChan := true,
+    rows := [⟨60, [(0, 1), (0, 2), (0, 1/2)], some 80, some 0⟩, ⟨36, [(1, 1), (2, 2), (1/2, 1/2)], some 100, some 9⟩] }
+def exArgs : Args := { timeUnit := "auto", timeDiv := none, removeDrums := true, opts := exOpts }
+
+example : (prepare exArray exArgs).map (fun x => (x.1.timeDiv, x.2)) = some (8, [⟨60, 0, 2, 80⟩]) := by decide +kernel
+example : (prepare exArray { exArgs with timeUnit := "sec", timeDiv := some 2, removeDrums := false }).map
+    (fun x => (x.1.timeDiv, x.2)) = some (2, [⟨60, 0, 1/2, 80⟩, ⟨36, 1/2, 1/2, 100⟩]) := by decide +kernel
+example : prepare exArray { exArgs with timeUnit := "seconds" } = none ∧
+    prepare exArray { exArgs with timeUnit := "tick" } = none := by decide +kernel
+example : (computePcBase exArray exArgs).map (fun r => (r.rows, r.cols)) = some (128, 16) := by decide +kernel
+example : (computePcBase exArray exArgs).map (fun r => r.idx) = some [(0, 0, 16, 60)] := by decide +kernel
+
 /-- eight frames per beat / quarter / second, one per div / tick -/
 theorem auto_time_div : TIME_UNITS.map autoTimeDiv = [some 8, some 8, some 8, some 1, some 1] := by decide
 
